@@ -893,6 +893,9 @@ func unop(instr *ssa.UnOp, x value) value {
 			return -x
 		}
 	case token.MUL:
+		if sa, ok := x.(symAddr); ok {
+			return selectCell(sa.cells, sa.idx)
+		}
 		return load(mustDeref(instr.X.Type()), x.(*value))
 	case token.NOT:
 		return !x.(bool)
